@@ -448,6 +448,40 @@ def validate_loop(ctx):
     _cmp(ctx, "pgen.loop", reqs, wants)
 
 
+def validate_parse(ctx):
+    from dateutil.parser import _parser as P
+    rng = ctx.subrng("pgen.parse")
+    n = ctx.budget(400, 2500)
+    reqs, wants = [], []
+    for info, custom in _infos():
+        iw = _iw(info, custom)
+        p = P.parser(info)
+        for _ in range(n):
+            r = rng.random()
+            if r < 0.6:
+                text = " ".join(rng.choice(STEP_TEXTS) for _ in range(rng.choice([1, 1, 2, 3])))
+            elif r < 0.9:
+                toks, _i = gen_numtok_case(rng, info)
+                text = "".join(toks)
+            else:
+                text = rng.choice(["", " ", "٢٠٠٣-٠٩-٢٥", "10:36:28.5 PM", "Today is 25 of September of 2003, exactly at 10:49:41",
+                                   "2003-09-25T10:49:41.5-03:00", "Thu, 25 Sep 2003 10:49:41 -0300", "1\x002", "K", "\u212a"])
+            df = rng.choice([-1, -1, 0, 1]); yf = rng.choice([-1, -1, 0, 1]); fz = rng.random() < 0.3; fwt = rng.random() < 0.25
+            reqs.append("pgen.parse %s %d %d %d %d %s %s" % (iw, df, yf, fz, fwt, L.cps(text), L.classes(text)))
+            def run():
+                res, tk = p._parse(text, dayfirst=None if df < 0 else bool(df), yearfirst=None if yf < 0 else bool(yf), fuzzy=fz,
+                                   fuzzy_with_tokens=fwt)
+                if res is None:
+                    return "N"
+                return "%s %s %s %d ; %s" % (
+                    " ".join(_oi(x) for x in (res.year, res.month, res.day, res.weekday, res.hour, res.minute, res.second,
+                                              res.microsecond, res.ampm)),
+                    L.optname(res.tzname), _oi(res.tzoffset), bool(res.century_specified),
+                    "-" if tk is None else "[" + ",".join(L.cps(t) for t in tk) + "]")
+            wants.append(_r(run, str))
+    _cmp(ctx, "pgen.parse", reqs, wants)
+
+
 STEP_TEXTS = ["10:36:28 BRST", "10:36 GMT+3", "10:36 UTC-3", "10:36 -0300 (BRST)", "10:36 +03:00", "10:36 -3", "10:36 +0300", "10:36 -030",
               "10:36 -03:00 (EST)", "10:36 +0300 (ABCDEF)", "10:36 +0300 , (BRT)", "Sep-25-2003", "Sep/25", "Sep-25", "Jan of 01", "Jan of ab",
               "Jan of 2001", "September of 99", "Sep 25", "10 pm", "10pm", "am 10", "Thu Sep 25 10:36:28 2003", "Thursday", "10 a", "x y z",
@@ -537,3 +571,4 @@ def validate(ctx):
     validate_step(ctx)
     validate_naive(ctx)
     validate_loop(ctx)
+    validate_parse(ctx)
